@@ -18,6 +18,7 @@ import (
 
 	"pmc/internal/comp"
 	"pmc/internal/harness"
+	"pmc/internal/model"
 )
 
 // C18 — every input is answered promptly with output or a located error, never a crash.
@@ -247,6 +248,14 @@ func c18Spaces(tier string) []c18Space {
 			return strings.Join(base, " ")
 		}})
 	}
+	// well-formed programs: every sequence of statement templates (shared with C01)
+	stmtSeqLen := 2
+	if tier == "thorough" {
+		stmtSeqLen = 3
+	}
+	spaces = append(spaces, c18Space{kind: "statement-sequences", total: seqCount(stmtSeqLen), input: func(idx uint64) string {
+		return model.Print([]*model.Script{seqProgram(idx)})
+	}})
 	// character strings
 	nC := uint64(len(c18Chars))
 	var chOffsets []uint64
@@ -555,5 +564,5 @@ func runC18(tier string) int {
 		"configurations are a covering set, not the full matrix: every option value appears in at least one configuration",
 		"an error must be a parser.ParseError with 1 <= start line <= end line <= number of lines (counting the empty line after a final newline)")
 	return r.Finish(r.Get("evaluations"), r.Get("nontrivial"),
-		"(a) every sequence of <= L tokens from a 57-lexeme alphabet after each of 29 context prefixes, with 3 suffixes; (b) every single deviation (truncation, deletion, replacement or insertion by every alphabet token) of 10 seed programs that use every production (thorough: pairs of deviations on the small seeds); (c) every string of <= N characters over 23 characters incl. multi-byte letters, a 3-byte non-letter, U+FFFD, NUL, quote, backtick, CR, bare and inside 'script S { x('; each input under a covering set of configurations (optimize, line markers/path, switches, font file/default font, command configs incl. argument positions -1 and 3, normal and lint); evaluations = input x configuration runs; non-trivial = the input is rejected (an error path is taken)")
+		"(a) every sequence of <= L tokens from a 57-lexeme alphabet after each of 29 context prefixes, with 3 suffixes; (b) every single deviation (truncation, deletion, replacement or insertion by every alphabet token) of 10 seed programs that use every production (thorough: pairs of deviations on the small seeds); (c) every sequence of <= S well-formed statement templates (22 templates, shared with C01); (d) every string of <= N characters over 23 characters incl. multi-byte letters, a 3-byte non-letter, U+FFFD, NUL, quote, backtick, CR, bare and inside 'script S { x('; each input under a covering set of configurations (optimize, line markers/path, switches, font file/default font, command configs incl. argument positions -1 and 3, normal and lint); evaluations = input x configuration runs; non-trivial = the input is rejected (an error path is taken)")
 }
